@@ -303,6 +303,7 @@ static J gen_grid(Chooser &ch)
   // every write mode the tool passes on to its VTU writer; "" = the line is absent (documented default: ASCII)
   c["format"] = ch.pick<std::string>({"ASCII", "ASCII", "", "Base64Inline", "Base64Appended", "Base64Appended", "RawBinary", "RawBinaryCompressed", "RawBinaryCompressed", "base64appended"});
   c["sph"] = w.fr.sph; c["R"] = w.fr.R; c["H"] = w.fr.H;
+  if (ch.chance(12)) c["reslimit"] = static_cast<int>(ch.range(1, 12));
   // 45%: the same requests written differently - lines in another order, '#' comment lines in between, counts zero-padded
   // (n_cell_x = 010 asks for ten cells), bounds in exponent notation or with a trailing '.0', a comma behind a value
   if (ch.chance(45))
@@ -376,14 +377,18 @@ static Result check_grid(const J &c)
   const std::string type = c.at("grid_type").str();
   const int dim = static_cast<int>(c.at("dim").num());
   const unsigned ncomp = static_cast<unsigned>(c.at("compositions").num());
-  const size_t nx = static_cast<size_t>(c.at("nx").num()), ny = static_cast<size_t>(c.at("ny").num()), nz = static_cast<size_t>(c.at("nz").num());
+  // --resolution-limit X ("Specify a maximum resolution"): no direction gets more than X cells
+  const size_t reslimit = c.has("reslimit") ? static_cast<size_t>(c.at("reslimit").num()) : 0;
+  auto capped = [&](const char *k) { const size_t n = static_cast<size_t>(c.at(k).num()); return reslimit ? std::min(n, reslimit) : n; };
+  const size_t nx = capped("nx"), ny = capped("ny"), nz = capped("nz");
   const std::string format = c.has("format") ? c.at("format").str() : "ASCII";
   write_file(dir + "/g.grid", grid_text(c));
   std::string out;
-  const int rc = run_cmd("cd '" + dir + "' && '" + exe + "' -j " + std::to_string(static_cast<int>(c.at("j").num())) + " " + c.at("flags").str() + " w.wb g.grid 2>&1", out);
+  const int rc = run_cmd("cd '" + dir + "' && '" + exe + "' -j " + std::to_string(static_cast<int>(c.at("j").num())) + " " + c.at("flags").str() + (reslimit ? " --resolution-limit " + std::to_string(reslimit) : std::string()) + " w.wb g.grid 2>&1", out);
   auto W = make_world(c.at("world").str());
   r.classes.push_back(type + " dim=" + std::to_string(dim));
   r.classes.push_back("format=" + (format.empty() ? std::string("<default>") : format));
+  if (reslimit) r.classes.push_back(reslimit < std::max({static_cast<size_t>(c.at("nx").num()), static_cast<size_t>(c.at("ny").num()), static_cast<size_t>(c.at("nz").num())}) ? "--resolution-limit below a requested count" : "--resolution-limit (no effect)");
   if (c.has("style")) { r.classes.push_back("grid file re-styled (line order, comments, spellings)"); if (c.at("style").at("pad").num() > 0) r.classes.push_back("zero-padded counts"); }
   if (rc != 0) return Result::fail("grid-run-failed", "gwb-grid ended with status " + std::to_string(rc) + " on a valid grid file: " + out.substr(0, 400));
   const Vtu v = read_vtu(dir + "/w.vtu");
